@@ -767,7 +767,7 @@ Print Assumptions C16_events_classified.
 (* the tables extracted from handle.rs / mod.rs / executor.rs / target_peers.rs are the model's: enum Quorum
    (N carries a NonZeroUsize), the command variants, the fifteen methods (which command, which draw an id,
    send or try_send), the event each QueryAction is turned into, peers_to_succeed, the executor, service,
-   refresh and command arms of the loop *)
+   refresh and command arms of the loop, the three results of service.dial that open_substream_or_dial tells apart *)
 Theorem C16_tables_in_sync :
   V.gen.C16Tables.quorum = tbl_quorum /\
   map fst V.gen.C16Tables.commands = tbl_commands /\
@@ -777,6 +777,7 @@ Theorem C16_tables_in_sync :
   V.gen.C16Tables.results = tbl_results /\
   V.gen.C16Tables.transports = tbl_transports /\
   V.gen.C16Tables.refresh = tbl_refresh /\
+  V.gen.C16Tables.dial_arms = tbl_dial_arms /\
   map (fun r : String.string * list String.string * list String.string * list String.string => (fst (fst (fst r)), snd (fst r)))
       V.gen.C16Tables.loop_cmds = tbl_cmd_store /\
   map (fun r : String.string * list String.string * list String.string * list String.string => (fst (fst (fst r)), snd r))
